@@ -256,6 +256,35 @@ def main(tier):
                        "the inner loop starts at the first sample (dates), positive at once: the loop is abandoned and the pairs are lost" % a["n"],
                        key="C12t|%s|%s" % (f.name, show(calls[0])[:40]))
     chk.floor("C12t", nt, 6)
+    # C12r: a per-sample contribution starts from scratch.  A loop whose body (a) accumulates pairs through the kernel `(this->*_evaluate)` in an
+    # inner loop and (b) afterwards folds the per-lag accumulators (getSwByIndex / getGgByIndex) into its own sums consumes them once per
+    # iteration: it must zero them (setSwByIndex(.., 0.) ...) before the inner loop, or the term of sample i holds the pairs of samples 0..i.
+    nr = 0
+    for f in sorted(prog.funcs, key=lambda x: (x.file, x.line)):
+        if f.body is None or f.cls != "Vario":
+            continue
+        for L in f.walk():
+            if L["k"] != "For" or len(L["c"]) < 4 or L["c"][3] is None or L["c"][3]["k"] != "Block":
+                continue
+            st = [z for z in L["c"][3]["c"] if z is not None]
+            ker = [k_ for k_, z in enumerate(st) if z["k"] == "For" and any(w["k"] == "PMCall" for w in walk(z))]
+            if not ker:
+                continue
+            fold = [k_ for k_, z in enumerate(st) if k_ > ker[0] and any(w["k"] == "MCall" and (w.get("callee") or "").split("::")[-1] == "getSwByIndex" for w in walk(z))
+                    and any(w["k"] in ("Assign", "CompoundAssign") and w.get("op") == "+=" for w in walk(z))]
+            if not fold:
+                continue
+            nr += 1
+            zero = [k_ for k_, z in enumerate(st) if k_ < ker[0] and any(
+                w["k"] == "MCall" and (w.get("callee") or "").split("::")[-1] == "setSwByIndex" and
+                any(a_ is not None and _strip(a_) is not None and _strip(a_)["k"] in ("Float", "Int") and float(_strip(a_).get("v") or 0) == 0. for a_ in call_args(w)[2:])
+                for w in walk(z))]
+            ok = bool(zero)
+            chk.analysed(f)
+            chk.ob("C12r", "%s: the accumulators folded at each iteration are emptied at each iteration" % f.name, f.loc(L), ok,
+                   detail=None if ok else "the loop adds getGgByIndex / getSwByIndex to its sums after each first sample but never resets them: the term of a "
+                   "sample contains the pairs of all the samples before it", key="C12r|%s" % f.name)
+    chk.floor("C12r", nr, 1)
     # C12k: the rank argument of a per-sample Db accessor comes from a loop over ALL the samples (c05_skip.rank_loop_rule)
     import c05_skip
     c05_skip.rank_loop_rule(prog, chk, "C12k", ("src/Variogram/",), 20)
